@@ -15,7 +15,7 @@ for id in $ids; do
   : > /tmp/benign_$id.txt
   for p in $props; do
     echo "### $p rc=$(cat $T/$p.rc)" >> /tmp/benign_$id.txt
-    grep -E "^VIOLATION|^  rule=|^UNDECIDED|^COVERAGE|^CHECK-ERROR|ANCHOR" $T/$p.out >> /tmp/benign_$id.txt
+    grep -E "^VIOLATION|^  rule=|^UNDECIDED|^COVERAGE|^CHECK-ERROR|ANCHOR|^sgcheck|^load|^panic|error:" $T/$p.out >> /tmp/benign_$id.txt
   done
   rm -rf $T
   git -C $REPO apply -R /verif/$d/patch.diff 2>/dev/null   # also removes files the patch created
